@@ -402,7 +402,7 @@ def run(ctx):
     # --- 4. generated cases
     rng = ctx.rng("gen")
     g = Gen(rng)
-    ncases = ctx.pick(900, 12000)
+    ncases = ctx.pick(900, 9000)
     cases = []
     seen = set()
     corpus = HERE / "corpus" / "lines.txt"
